@@ -964,6 +964,11 @@ class Frame(object):
                 if not isinstance(a, int):
                     raise LiftUnknown('range of non-int')
             return list(range(*args))
+        if name == 'builtin.enumerate':
+            start = args[1] if len(args) > 1 else kwargs.get('start', 0)
+            return [(i + start, v) for i, v in enumerate(list(args[0]))]
+        if name == 'builtin.zip':
+            return [tuple(t) for t in zip(*[list(a) for a in args])]
         if name == 'builtin.len':
             if isinstance(args[0], Term):
                 raise LiftError('TypeError', 'object of type Expr has no len()', n)
